@@ -39,7 +39,7 @@ def _cases(draw, n_max=6):
     regime = draw(st.sampled_from(["exact", "exact", "exact", "exact", "free", "approx", "approx"]))
     n_hi = 4 if regime == "exact" else n_max
     seq = draw(gen.seq_cases(n_min=2 if regime != "approx" else 3, n_max=n_hi, basis=basis, allow_mod=True, max_ops=3, dur_hi=80,
-                             dmin=5.5, dmax=11.0))
+                             dmin=5.5, dmax=11.0, allow_no_global=True))
     n = len(seq["reg"]["ids"])
     # force a healthy share of "permutation != identity and per-atom drive differs"
     if basis == "rydberg" and seq["local"] is None and seq["dmm"] is None and draw(st.booleans()):
